@@ -34,7 +34,7 @@ func respCode(r *msg.NewProxyResp) int {
 		return remotePort(r.RemoteAddr)
 	case strings.Contains(e, "exceed the max_ports_per_client"):
 		return -10
-	case strings.Contains(e, "already exists"):
+	case strings.Contains(e, "already exists"), strings.Contains(e, "already in use"):
 		return -11
 	case strings.Contains(e, "port already used"):
 		return -1
@@ -104,6 +104,11 @@ func runSys(cfg *hx.RunCfg) error {
 		k := 3 + g.Intn(5)
 		ranges := []types.PortsRange{{Start: basePort + 20, End: basePort + 20 + k}}
 		maxp := []int{0, 1, 2, 2, 3}[g.Intn(5)]
+		if ci == 0 {
+			maxp = 0
+		} else if ci == 1 {
+			maxp = 2
+		}
 		srv, err := hx.StartServer(loopB, func(c *v1.ServerConfig) {
 			c.AllowPorts = ranges
 			c.MaxPortsPerClient = int64(maxp)
@@ -133,8 +138,130 @@ func runSys(cfg *hx.RunCfg) error {
 		}
 		login()
 		login()
+		lastGranted := map[string]int{} // "kind/name" -> port of the name's last successful registration
+		abort := false
+		doNew := func(sid int, q pxyReq) {
+			p := w.peers[sid]
+			np := &msg.NewProxy{ProxyName: q.name, ProxyType: q.kind, RemotePort: q.port, Group: q.group, GroupKey: q.gkey}
+			if q.kind == "stcp" {
+				np.Sk = "sk"
+			}
+			// "gets its previous port back when that port is still free": what the client may expect
+			expect := -1
+			if (q.kind == "tcp" || q.kind == "udp") && q.port == 0 && q.group == "" {
+				if lp, ok := lastGranted[q.kind+"/"+q.name]; ok {
+					m, sq := rc.TCPPortManager, w.pw.tcpSq
+					if q.kind == "udp" {
+						m, sq = rc.UDPPortManager, w.pw.udpSq
+					}
+					free := false
+					for _, f := range takeSnap(m).free {
+						if f == lp {
+							free = true
+						}
+					}
+					if _, held := sq.held[lp]; free && !held && len(osBusy(q.kind, loopB, []int{lp})) == 0 {
+						expect = lp
+					}
+				}
+			}
+			joining := false
+			if q.group != "" {
+				if gs, ok := rc.TCPGroupCtl.VerifSnapshot()[q.group]; ok && gs.Members > 0 {
+					joining = true
+				}
+			}
+			resp, err := p.NewProxy(np)
+			if err != nil {
+				failures = append(failures, map[string]string{"key": "sys-no-response", "what": "no NewProxyResp", "case": fmt.Sprint(err)})
+				abort = true
+				return
+			}
+			res := respCode(resp)
+			choice := "None"
+			if res > 0 {
+				choice = fmt.Sprintf("(Some %d)", res)
+			}
+			if res == -98 {
+				failures = append(failures, map[string]string{"key": "sys-unknown-error", "what": "NewProxyResp.Error not classified", "case": resp.Error})
+			}
+			if res >= 0 {
+				oks++
+				sp := &sysProxy{name: q.name, kind: q.kind, port: res, sid: sid, regIdx: len(w.regs)}
+				if c, ok := srv.Svc.VerifProxyCloser(q.name); ok {
+					sp.closer = c
+				}
+				w.regs = append(w.regs, sp)
+				w.live[sid][q.name] = sp
+				dist["new:"+q.kind+":ok"]++
+				if q.kind != "stcp" && !joining {
+					lastGranted[q.kind+"/"+q.name] = res
+				}
+				if expect > 0 {
+					dist["same-port-back-expected"]++
+					if res != expect {
+						failures = append(failures, map[string]string{"key": "previous-port-not-returned",
+							"what": "a proxy asking for a server-chosen port did not get its previous port back although that port was free and bindable",
+							"case": fmt.Sprintf("name=%s previous=%d got=%d steps=%s", q.name, expect, res, strings.Join(steps, "; "))})
+					}
+				}
+				// quota as the client can count it: distinct public ports the session holds
+				held := map[string]bool{}
+				n := 0
+				for _, lp := range w.live[sid] {
+					if lp.kind != "stcp" {
+						n++
+						held[fmt.Sprintf("%s/%d", lp.kind, lp.port)] = true
+					}
+				}
+				if maxp > 0 && len(held) > maxp {
+					failures = append(failures, map[string]string{"key": "quota-exceeded", "what": "a session holds more distinct public ports than maxPortsPerClient",
+						"case": fmt.Sprintf("max=%d distinct ports held=%d (proxies %d) steps=%s", maxp, len(held), n, strings.Join(steps, "; "))})
+				}
+			} else {
+				dist[fmt.Sprintf("new:%s:%d", q.kind, res)]++
+			}
+			steps = append(steps, fmt.Sprintf("(SNew %d %s, %s)", sid, coqReq(q, choice, true), observe(res)))
+		}
+		doClose := func(sid int, name string) {
+			p := w.peers[sid]
+			if err := p.CloseProxy(name); err != nil || w.sync(p) != nil {
+				failures = append(failures, map[string]string{"key": "sys-close-failed", "what": "CloseProxy/Ping round trip failed", "case": name})
+				abort = true
+				return
+			}
+			if _, ok := w.live[sid][name]; ok {
+				dist["close:own"]++
+			} else {
+				dist["close:unknown"]++
+			}
+			delete(w.live[sid], name)
+			steps = append(steps, fmt.Sprintf("(SClose %d %s, %s)", sid, hx.Str(name), observe(-100)))
+		}
+		// scripted histories the property text singles out, replayed first in every run
+		if ci == 0 {
+			// server-chosen port, a refused duplicate of the same name (same and other session), close, same port back
+			doNew(1, pxyReq{kind: "tcp", name: "web", port: 0})
+			doNew(2, pxyReq{kind: "tcp", name: "web", port: 0})
+			doNew(1, pxyReq{kind: "tcp", name: "web", port: basePort + 22})
+			doNew(1, pxyReq{kind: "udp", name: "dns", port: 0})
+			doNew(2, pxyReq{kind: "udp", name: "dns", port: 0})
+			doClose(1, "web")
+			doClose(1, "dns")
+			doNew(1, pxyReq{kind: "tcp", name: "web", port: 0})
+			doNew(2, pxyReq{kind: "udp", name: "dns", port: 0})
+		} else if ci == 1 {
+			// quota 2: grouped tcp proxies in distinct groups are charged like any other proxy
+			doNew(1, pxyReq{kind: "tcp", name: "g-a", port: 0, group: "ga", gkey: "k"})
+			doNew(1, pxyReq{kind: "tcp", name: "g-b", port: 0, group: "gb", gkey: "k"})
+			doNew(1, pxyReq{kind: "tcp", name: "g-c", port: 0, group: "gc", gkey: "k"})
+			doNew(1, pxyReq{kind: "tcp", name: "g-d", port: 0, group: "ga", gkey: "k"})
+			doClose(1, "g-a")
+			doNew(1, pxyReq{kind: "tcp", name: "g-c", port: 0, group: "gc", gkey: "k"})
+			doNew(1, pxyReq{kind: "tcp", name: "g-e", port: 0, group: "ge", gkey: "k"})
+		}
 		nops := 10 + g.Intn(18)
-		for oi := 0; oi < nops && len(w.peers) > 0; oi++ {
+		for oi := 0; oi < nops && len(w.peers) > 0 && !abort; oi++ {
 			sids := []int{}
 			for s := range w.peers {
 				sids = append(sids, s)
@@ -162,48 +289,7 @@ func runSys(cfg *hx.RunCfg) error {
 				if g.Chance(0.12) {
 					q.kind, q.group, q.gkey, q.port = "stcp", "", "", 0
 				}
-				np := &msg.NewProxy{ProxyName: q.name, ProxyType: q.kind, RemotePort: q.port, Group: q.group, GroupKey: q.gkey}
-				if q.kind == "stcp" {
-					np.Sk = "sk"
-				}
-				resp, err := p.NewProxy(np)
-				if err != nil {
-					failures = append(failures, map[string]string{"key": "sys-no-response", "what": "no NewProxyResp", "case": fmt.Sprint(err)})
-					oi = nops
-					continue
-				}
-				res := respCode(resp)
-				choice := "None"
-				if res > 0 {
-					choice = fmt.Sprintf("(Some %d)", res)
-				}
-				if res == -98 {
-					failures = append(failures, map[string]string{"key": "sys-unknown-error", "what": "NewProxyResp.Error not classified", "case": resp.Error})
-				}
-				if res >= 0 {
-					oks++
-					sp := &sysProxy{name: q.name, kind: q.kind, port: res, sid: sid, regIdx: len(w.regs)}
-					if c, ok := srv.Svc.VerifProxyCloser(q.name); ok {
-						sp.closer = c
-					}
-					w.regs = append(w.regs, sp)
-					w.live[sid][q.name] = sp
-					dist["new:"+q.kind+":ok"]++
-					// quota as the client can count it
-					n := 0
-					for _, lp := range w.live[sid] {
-						if lp.kind != "stcp" {
-							n++
-						}
-					}
-					if maxp > 0 && n > maxp {
-						failures = append(failures, map[string]string{"key": "quota-exceeded", "what": "a session holds more ports than maxPortsPerClient",
-							"case": fmt.Sprintf("max=%d held=%d steps=%s", maxp, n, strings.Join(steps, "; "))})
-					}
-				} else {
-					dist[fmt.Sprintf("new:%s:%d", q.kind, res)]++
-				}
-				steps = append(steps, fmt.Sprintf("(SNew %d %s, %s)", sid, coqReq(q, choice, true), observe(res)))
+				doNew(sid, q)
 			case x < 75:
 				var name string
 				if len(w.live[sid]) > 0 && g.Chance(0.8) {
@@ -216,18 +302,7 @@ func runSys(cfg *hx.RunCfg) error {
 				} else {
 					name = names[g.Intn(len(names))]
 				}
-				if err := p.CloseProxy(name); err != nil || w.sync(p) != nil {
-					failures = append(failures, map[string]string{"key": "sys-close-failed", "what": "CloseProxy/Ping round trip failed", "case": name})
-					oi = nops
-					continue
-				}
-				if _, ok := w.live[sid][name]; ok {
-					dist["close:own"]++
-				} else {
-					dist["close:unknown"]++
-				}
-				delete(w.live[sid], name)
-				steps = append(steps, fmt.Sprintf("(SClose %d %s, %s)", sid, hx.Str(name), observe(-100)))
+				doClose(sid, name)
 			case x < 82:
 				p.Close()
 				// wait for the teardown loop of Control.worker: it closes each proxy and then removes its
